@@ -2,6 +2,7 @@ package main
 
 import (
 	"fmt"
+	"os"
 	"sort"
 	"sync"
 	"time"
@@ -107,7 +108,7 @@ func explore(env *vm.Env, run HarnessRun, workers int, cross string, timeout tim
 
 				out := wk.Run(vm.RunOpts{
 					Entry: run.PkgPath + "." + run.Entry, Prefix: prefix, Budget: run.Budget,
-					WantSample: npaths < 12, CrossCheck: cross != "", CollectFns: true,
+					WantSample: npaths < 12 || os.Getenv("VERIF_DUMP_PATHS") != "", CrossCheck: cross != "", CollectFns: true,
 					Preempt: run.Preempt, SymMapOrder: run.MapOrder,
 				})
 
@@ -131,6 +132,9 @@ func explore(env *vm.Env, run HarnessRun, workers int, cross string, timeout tim
 				}
 				if out.Sample != nil && len(r.Samples) < 12 {
 					r.Samples = append(r.Samples, out.Sample)
+				}
+				if os.Getenv("VERIF_DUMP_PATHS") != "" && r.Paths%97 == 0 {
+					fmt.Fprintf(os.Stderr, "PATH %v %v\n", out.Decisions, out.Sample)
 				}
 				switch out.Status {
 				case "ok", "assume":
